@@ -80,7 +80,8 @@ def r_cb_linear(ctx):
     # wire answer: send of apply_command_response carrying the request id unpacked from the callback tuple
     unpacked = set()
     for n in U.walk_no_nested(f.node):
-        if isinstance(n, ast.Assign) and isinstance(n.value, ast.Name) and n.value.id == cbname and isinstance(n.targets[0], ast.Tuple):
+        vals_ = [n.value.body, n.value.orelse] if isinstance(n, ast.Assign) and isinstance(n.value, ast.IfExp) else ([n.value] if isinstance(n, ast.Assign) else [])
+        if isinstance(n, ast.Assign) and any(isinstance(v_, ast.Name) and v_.id == cbname for v_ in vals_) and isinstance(n.targets[0], ast.Tuple):
             for e in n.targets[0].elts:
                 if isinstance(e, ast.Name):
                     unpacked.add(e.id)
@@ -262,6 +263,13 @@ def r_success_guard(ctx):
                 problems = []
                 # term equality fact: an eq literal between the loop's stored term and (alias of) entry[term_pos]
                 entry_var = R.apply_loop.target.id if isinstance(R.apply_loop, ast.For) and isinstance(R.apply_loop.target, ast.Name) else None
+                tgt_ = R.apply_loop.target if isinstance(R.apply_loop, ast.For) else None
+
+                def comp(k):
+                    """key of the k-th component of the entry the loop is at: entry[k], or the k-th name of an unpacking target"""
+                    if isinstance(tgt_, (ast.Tuple, ast.List)) and k < len(tgt_.elts) and isinstance(tgt_.elts[k], ast.Name):
+                        return tgt_.elts[k].id
+                    return '%s[%d]' % (entry_var, k)
                 inner_for = [p for p in n.parents if isinstance(p, ast.For) and p is not R.apply_loop]
                 stored = set()
                 if inner_for:
@@ -274,7 +282,7 @@ def r_success_guard(ctx):
                             continue
                         for a, b in ((l[1], l[2]), (l[2], l[1])):
                             # a = the term stored with the callback (a target of the subscribers loop), b aliases entry[term]
-                            if a.key in stored and _aliases(fs - {l}, b, '%s[%d]' % (entry_var, term_pos)):
+                            if a.key in stored and _aliases(fs - {l}, b, comp(term_pos)):
                                 ok = True
                     if not ok:
                         problems.append('no fact `stored term == term of the applied entry` on path %s' % res.path_str(n.id, fs))
@@ -287,8 +295,7 @@ def r_success_guard(ctx):
                         problems.append('the reported result `%s` is not the value of dispatching this entry' % a0.id)
                     # dispatch argument is the command of this entry
                     arg = R.apply_call.args[0] if R.apply_call.args else None
-                    if not (isinstance(arg, ast.Subscript) and isinstance(arg.value, ast.Name) and arg.value.id == entry_var
-                            and isinstance(arg.slice, ast.Constant) and arg.slice.value == 0):
+                    if not (arg is not None and unparse(arg) == comp(0)):
                         problems.append('the dispatch does not execute the command component of the loop entry')
                 else:
                     problems.append('the reported result is not a local holding the dispatch value')
